@@ -463,6 +463,8 @@ def run_two_requests(prefix, kinds, accessors):
         def make(i):
             B, ct = KINDS[kinds[i]]
             a = max(1, len(B) // 2)
+            if kinds[i] == "multipart":
+                a = B.index(b"v1") + 1  # inside the value of the text field
             chunks = [B[:a], b"", B[a:]] if len(B) > 1 else [B]
             msgs = [{"type": "http.request", "body": c, "more_body": k < len(chunks) - 1} for k, c in enumerate(chunks)]
             idx = [0]
